@@ -109,7 +109,7 @@ PROPS = {
         "technique": "Lean 4 proof (bit-packing theory, field and column round-trip lemmas by induction, header/satellite/signal stages, attachment = row-major numbering) over layouts regenerated from the source + differential correspondence with an independent Go encoder",
         "text": "Kernel-checked theorem msm_roundtrip: for both decoder families, every well-formed abstract message (any of the 14 types, any masks with at most 64 cells, any in-range field values incl. "
                 "the 'invalid' markers and all-zero cells, multiple flag per the property, ANY number of trailing zero bytes, any leader/CRC bytes) the model of GetMessage returns exactly the encoded header, "
-                "the lists implied by the masks, every satellite row and every signal cell; attach_spec shows each cell is attached to the satellite/signal id of its cell-mask bit in row-major order; "
+                "the lists implied by the masks, every satellite row and every signal cell (the harness also compares the constellation name and the carrier wavelength each decoded cell carries); attach_spec shows each cell is attached to the satellite/signal id of its cell-mask bit in row-major order; "
                 "pad independence is a corollary. The field layouts and the source of the cell count are regenerated from the code and pinned. The Lean specification encoder is itself tied to an independent "
                 "Go encoder (same bytes), whose messages the real decoder must decode to the expected values (direct oracle).",
         "note": "Unbounded in masks, values and padding; no fuel, no size bound. The 1023-byte frame limit is not needed by the theorem (it holds for any padding).",
@@ -151,7 +151,7 @@ PROPS = {
                 "of scaled/10000; phase range in cycles within 2^-50 of scaled*f/(2^31*1000) and Doppler within 2^-50 of -(scaled/10000)*f/299792458 for every carrier frequency f of the regenerated tables (frequencies_covered), "
                 "with wavelength = fl(299792458/f) as the code computes it. The float model is compared BIT FOR BIT (sign, exponent, significand) with the hardware results of RangeInMetres, PhaseRange, PhaseRangeRate and "
                 "PhaseRangeRateDoppler on every generated cell, and all results with exact rational arithmetic.",
-        "note": "Exponent range/subnormals are not modelled (all values lie between 2^-20 and 2^40); the hardware is tied to the model by comparison, not by proof. The display of these floats (fmt %f) is covered by C07/C15 sweeps only.",
+        "note": "The wavelength a DECODED cell carries (constellation of the type, signal id of its column) is compared in C04's observables with the oracle's own frequency table and with the model. Exponent range/subnormals are not modelled (all values lie between 2^-20 and 2^40); the hardware is tied to the model by comparison, not by proof. The display of these floats (fmt %f) is covered by C07/C15 sweeps only.",
         "assumptions": ["IEEE-754 binary64 arithmetic with round-to-nearest-even (compared bit for bit with the model on every generated cell)", "float64(uint64) conversion exact below 2^53"],
     },
     "C13": {
